@@ -2,5 +2,6 @@ import Bebop.Bytes
 import Bebop.Generated.Facts
 import Bebop.Wire
 import Bebop.Slice
+import Bebop.Stream
 import Bebop.Proofs.Enc
 import Bebop.Proofs.RoundTrip
